@@ -1,9 +1,9 @@
 SPECIFICATION Spec
 CONSTANTS
   TypeSeq <- TS2
-  MaxVars = 1
-  MaxStmts = 2
-  Forms = {"sfx", "tv", "bin", "as", "call", "idx", "cmp", "declt", "asgu", "asgt"}
+  MaxVars = 2
+  MaxStmts = 4
+  Forms = {"tv", "chain", "asgu", "asgt", "cmp"}
   Rets = {"void", "i32"}
 INVARIANTS ASound AUndet ASolution EmitCase
 CHECK_DEADLOCK FALSE
